@@ -127,3 +127,70 @@ def module_state_instances(ctx) -> List[tuple]:
                 out.append((fn.module.name, fn.qualname, d, False,
                             'mutable default argument: shared between calls', d))
     return out
+
+
+# ---------------------------------------------------------------------------------------------------------
+# FindResult typing hook and the container / valid_types agreement (E6), shared by C07, C13, C14
+# ---------------------------------------------------------------------------------------------------------
+def valid_types_table(ctx):
+    """Classes listed by FindResult.valid_types (read from the property body)."""
+    prog = ctx.prog
+    fr = prog.cls('ast_view', 'FindResult')
+    vt = fr.methods.get('valid_types')
+    if vt is None:
+        raise AnalysisError('FindResult.valid_types vanished')
+    out = []
+    for n in iter_own_nodes(vt.node):
+        if isinstance(n, ast.Return) and isinstance(n.value, (ast.List, ast.Tuple)):
+            for e in n.value.elts:
+                sym = prog.resolve_expr_symbol(vt.module, e)
+                if isinstance(sym, ClassInfo):
+                    out.append(sym)
+    if not out:
+        raise AnalysisError('FindResult.valid_types is not a literal list of classes')
+    return out
+
+
+def install_find_hooks(ctx, abs_):
+    """type of `<FindResult>.get_single_instance(T)` is T; without a type hint it is the union of valid_types."""
+    from ..model import union, t_cls, strip_opt
+    prog = ctx.prog
+    valid = valid_types_table(ctx)
+    fr = prog.cls('ast_view', 'FindResult')
+
+    def hook(fn, call):
+        f = call.func
+        if not (isinstance(f, ast.Attribute) and f.attr == 'get_single_instance'):
+            return None
+        rt = strip_opt(abs_.type_at(fn, f.value, call))
+        if rt != ('cls', fr.fq):
+            return None
+        hint = call.args[0] if call.args else next((k.value for k in call.keywords if k.arg == 'ast_typehint'), None)
+        if hint is None or (isinstance(hint, ast.Constant) and hint.value is None):
+            return union(t_cls(c.fq) for c in valid)
+        sym = prog.resolve_expr_symbol(fn.module, hint)
+        if isinstance(sym, ClassInfo):
+            return t_cls(sym.fq)
+        return None
+    abs_.call_type_hooks.append(hook)
+    return valid
+
+
+def find_containers(ctx, fn_name: str):
+    """FileContents containers scanned by ast_view.<fn_name>: [(field name, element ClassInfo)]."""
+    prog = ctx.prog
+    fn = prog.func('ast_view', fn_name)
+    fc = prog.cls('ast', 'FileContents')
+    fields = prog.class_fields(fc)
+    out = []
+    lists = [n for n in iter_own_nodes(fn.node) if isinstance(n, ast.For) and isinstance(n.iter, (ast.List, ast.Tuple))]
+    if len(lists) != 1:
+        raise AnalysisError(f'{fn_name}: expected exactly one loop over a literal list of containers')
+    for e in lists[0].iter.elts:
+        if not (isinstance(e, ast.Attribute) and e.attr in fields):
+            raise AnalysisError(f'{fn_name}: container `{ast.unparse(e)}` is not a FileContents field')
+        ann = fields[e.attr][0]
+        t = prog.ann_to_type(fc.module, ann, fc)
+        elem = prog.classes.get(t[1][1]) if t[0] == 'list' and t[1][0] == 'cls' else None
+        out.append((e.attr, elem))
+    return out, lists[0]
